@@ -714,9 +714,13 @@ class Consumer : public ASTConsumer {
             if (!first)
                 J += ",";
             first = false;
+            std::string Sz = "-1";
+            if (!F->getType()->isIncompleteType() && !F->isBitField())
+                Sz = std::to_string(E.Ctx.getTypeSizeInChars(F->getType()).getQuantity());
             J += "{\"n\":" + q(F->getNameAsString()) + ",\"t\":" +
                  q(E.typeStr(F->getType())) + ",\"off\":" +
-                 std::to_string(L.getFieldOffset(i) / 8) + "}";
+                 std::to_string(L.getFieldOffset(i) / 8) + ",\"sz\":" + Sz +
+                 std::string(",\"signed\":") + (F->getType()->isSignedIntegerType() ? "1" : "0") + "}";
             i++;
             // nested anonymous / named records
             if (const RecordType *RT = F->getType()->getAs<RecordType>())
